@@ -972,6 +972,15 @@ func runC05(r *Rand, tier string, o *Out) {
 		o.Fail("objects passed to the generated stub and asked back: "+why, "gen.objects 1 => "+out+" "+tail(lastFailDetail, 400))
 	}
 	o.Count("scenario:objects-as-arguments-and-results")
+	// a call whose arguments cannot be encoded, then calls that can
+	if out := o.Do("P", "gen.objects 3", true); out != "ok" {
+		why := strings.TrimPrefix(out, "fail:")
+		if k := strings.Index(why, ":"); k > 0 {
+			why = why[:k]
+		}
+		o.Fail("calls after a call whose arguments could not be encoded: "+why, "gen.objects 3 => "+out+" "+tail(lastFailDetail, 400))
+	}
+	o.Count("scenario:call-after-a-failed-encode")
 	// lists of objects as an argument and as a result (a listed finding)
 	o.Do("X", "gen.objectsx 2", true)
 	if c05LastObjX != "ok" {
